@@ -52,9 +52,10 @@ class FakeTqdm:
 
 
 class TmpFile:
-    def __init__(self, log, name):
+    def __init__(self, log, name, truncated=True):
         self.log, self.name = log, name
         self.written = []
+        self.truncated = truncated      # False: an existing longer file of that name keeps its stale tail
 
     def write(self, data):
         self.written.append(data)
@@ -97,8 +98,16 @@ class ReceiveFile(Job):
         conn, sent = mk_conn()
         opened = []
 
-        def fake_open(path, mode="r"):
-            f = TmpFile(log, path)
+        def fake_open(path, mode="r", buffering=-1, encoding=None, errors=None, newline=None, closefd=True, opener=None):
+            # builtin open(): mode "wb" means O_WRONLY|O_CREAT|O_TRUNC; with an opener= the flags the opener really uses decide
+            import os as real_os
+            truncated = "w" in mode
+            if opener is not None:
+                flags = real_os.O_WRONLY | real_os.O_CREAT | real_os.O_TRUNC | getattr(real_os, "O_CLOEXEC", 0)
+                opener(path, flags)
+                used = getattr(fs, "os_open_flags", [])
+                truncated = bool(used) and bool(used[-1][1] & real_os.O_TRUNC)
+            f = TmpFile(log, path, truncated)
             opened.append(f)
             log.append(("open-" + mode, path))
             return f
@@ -132,7 +141,8 @@ class ReceiveFile(Job):
                 conn.recordReceived(rec)
             if lose_after is not None:
                 conn.connectionLost(failure.Failure(error.ConnectionDone()))
-        return dict(result=result, log=log, records=records, written=(opened[0].written if opened else []), hashers=hashers, sent=sent, wsent=wsent, conn=conn)
+        return dict(result=result, log=log, records=records, written=(opened[0].written if opened else []), hashers=hashers, sent=sent, wsent=wsent, conn=conn,
+                    truncated=all(f.truncated for f in opened))
 
     def scenario(self):
         X = fresh_int("filesize", 0)
@@ -155,6 +165,7 @@ class ReceiveFile(Job):
             total = total + (n.t if isinstance(n, SymInt) else n)
         total = SymInt(z3.simplify(total))
         renames = [e for e in log if e[0] == "rename-to"]
+        check(o["truncated"], "the temporary file is not opened truncating: a stale longer <name>.tmp would leave its tail in the result")
         if res and res[0][0] == "ok":
             check(total == X, "success reported although the bytes written differ from the announced size")
             check(len(renames) == 1 and renames[0][1] == "/w/name" if not hasattr(renames[0][1], "c") else True, "final destination not created exactly once")
@@ -195,6 +206,8 @@ class ReceiveFile(Job):
         total = sum(len(b) for b in o["written"])
         renames = [e for e in log if e[0] == "rename-to"]
         desc = "filesize %d, records %r, lost after %r -> %r, written %d bytes, renames %r, acks %d" % (X, lens, lose_after, res, total, renames, len(o["sent"]))
+        if not o["truncated"]:
+            return "temporary file opened without truncation (an existing longer .tmp leaves a stale tail in the final file): " + desc
         if res and res[0][0] == "ok":
             if total != X or len(renames) != 1 or len(o["sent"]) != 1:
                 return "success although not byte-exact / not exactly one destination / ack: " + desc
